@@ -333,40 +333,27 @@ c10_radix!(c10_radix_le_i8_r10, BIntD8<1>, 8, u8x1, from_radix_le, false, 6, 3, 
 c10_radix!(c10_radix_be_i8_r256, BIntD8<1>, 8, u8x1, from_radix_be, true, 4, 1, 6, [256]);
 
 // ---------------------------------------------------------------- 16-bit targets (thorough)
-macro_rules! c10_16bit {
-    ($U:ty, $I:ty, $cu:ident, $ci:ident, $r2:ident, $r4:ident, $r16:ident, $r8:ident, $r32:ident, $r3:ident, $r10:ident, $r36:ident,
-     $ir16:ident, $ir10:ident, $fs:ident, $ifs:ident, $by:ident,
-     $be16:ident, $le16:ident, $be10:ident, $le10:ident, $be256:ident, $le256:ident, $ibe256:ident) => {
-        c10_str!($r2, $U, false, 16, $cu, 19, 16, 21, [2]);
-        c10_str!($r4, $U, false, 16, $cu, 11, 8, 13, [4]);
-        c10_str!($r16, $U, false, 16, $cu, 7, 4, 9, [16]);
-        c10_str!($r8, $U, false, 16, $cu, 9, 6, 11, [8]);
-        c10_str!($r32, $U, false, 16, $cu, 7, 4, 12, [32]);
-        c10_str!($r3, $U, false, 16, $cu, 14, 11, 16, [3]);
-        c10_str!($r10, $U, false, 16, $cu, 8, 5, 10, [10]);
-        c10_str!($r36, $U, false, 16, $cu, 7, 4, 9, [36]);
-        c10_str!($ir16, $I, true, 16, $ci, 7, 4, 9, [16]);
-        c10_str!($ir10, $I, true, 16, $ci, 8, 5, 10, [10]);
-        c10_fromstr!($fs, $U, false, 16, $cu, 8, 5, 10);
-        c10_fromstr!($ifs, $I, true, 16, $ci, 8, 5, 10);
-        c10_bytes!($by, $U, false, 16, $cu, 7, 4, 9, [16]);
-        c10_radix!($be16, $U, 16, $cu, from_radix_be, true, 7, 4, 9, [16]);
-        c10_radix!($le16, $U, 16, $cu, from_radix_le, false, 7, 4, 9, [16]);
-        c10_radix!($be10, $U, 16, $cu, from_radix_be, true, 8, 5, 10, [10]);
-        c10_radix!($le10, $U, 16, $cu, from_radix_le, false, 8, 5, 10, [10]);
-        c10_radix!($be256, $U, 16, $cu, from_radix_be, true, 5, 2, 7, [256]);
-        c10_radix!($le256, $U, 16, $cu, from_radix_le, false, 5, 2, 7, [256]);
-        c10_radix!($ibe256, $I, 16, $cu, from_radix_be, true, 5, 2, 7, [256]);
-    };
-}
-c10_16bit!(BUintD8<2>, BIntD8<2>, u8x2, i8x2,
-    c10_str_u8x2_r2, c10_str_u8x2_r4, c10_str_u8x2_r16, c10_str_u8x2_r8, c10_str_u8x2_r32, c10_str_u8x2_r3, c10_str_u8x2_r10, c10_str_u8x2_r36,
-    c10_str_i8x2_r16, c10_str_i8x2_r10, c10_fromstr_u8x2, c10_fromstr_i8x2, c10_bytes_u8x2_r16,
-    c10_radix_be_u8x2_r16, c10_radix_le_u8x2_r16, c10_radix_be_u8x2_r10, c10_radix_le_u8x2_r10, c10_radix_be_u8x2_r256, c10_radix_le_u8x2_r256, c10_radix_be_i8x2_r256);
-c10_16bit!(BUintD16<1>, BIntD16<1>, u16x1, i16x1,
-    c10_str_u16x1_r2, c10_str_u16x1_r4, c10_str_u16x1_r16, c10_str_u16x1_r8, c10_str_u16x1_r32, c10_str_u16x1_r3, c10_str_u16x1_r10, c10_str_u16x1_r36,
-    c10_str_i16x1_r16, c10_str_i16x1_r10, c10_fromstr_u16x1, c10_fromstr_i16x1, c10_bytes_u16x1_r16,
-    c10_radix_be_u16x1_r16, c10_radix_le_u16x1_r16, c10_radix_be_u16x1_r10, c10_radix_le_u16x1_r10, c10_radix_be_u16x1_r256, c10_radix_le_u16x1_r256, c10_radix_be_i16x1_r256);
+c10_str!(c10_str_u8x2_r2, BUintD8<2>, false, 16, u8x2, 19, 16, 21, [2]);
+c10_str!(c10_str_u8x2_r16, BUintD8<2>, false, 16, u8x2, 7, 4, 9, [16]);
+c10_str!(c10_str_u8x2_r8, BUintD8<2>, false, 16, u8x2, 9, 6, 11, [8]);
+c10_str!(c10_str_u8x2_r10, BUintD8<2>, false, 16, u8x2, 8, 5, 10, [10]);
+c10_str!(c10_str_u8x2_r36, BUintD8<2>, false, 16, u8x2, 7, 4, 9, [36]);
+c10_str!(c10_str_i8x2_r16, BIntD8<2>, true, 16, i8x2, 7, 4, 9, [16]);
+c10_str!(c10_str_i8x2_r10, BIntD8<2>, true, 16, i8x2, 8, 5, 10, [10]);
+c10_fromstr!(c10_fromstr_u8x2, BUintD8<2>, false, 16, u8x2, 8, 5, 10);
+c10_bytes!(c10_bytes_u8x2_r16, BUintD8<2>, false, 16, u8x2, 7, 4, 9, [16]);
+c10_radix!(c10_radix_be_u8x2_r16, BUintD8<2>, 16, u8x2, from_radix_be, true, 7, 4, 9, [16]);
+c10_radix!(c10_radix_le_u8x2_r10, BUintD8<2>, 16, u8x2, from_radix_le, false, 8, 5, 10, [10]);
+c10_radix!(c10_radix_be_u8x2_r256, BUintD8<2>, 16, u8x2, from_radix_be, true, 5, 2, 7, [256]);
+c10_radix!(c10_radix_le_u8x2_r256, BUintD8<2>, 16, u8x2, from_radix_le, false, 5, 2, 7, [256]);
+c10_radix!(c10_radix_be_i8x2_r256, BIntD8<2>, 16, u8x2, from_radix_be, true, 5, 2, 7, [256]);
+c10_str!(c10_str_u16x1_r16, BUintD16<1>, false, 16, u16x1, 7, 4, 9, [16]);
+c10_str!(c10_str_u16x1_r4, BUintD16<1>, false, 16, u16x1, 11, 8, 13, [4]);
+c10_str!(c10_str_u16x1_r10, BUintD16<1>, false, 16, u16x1, 8, 5, 10, [10]);
+c10_str!(c10_str_u16x1_r32, BUintD16<1>, false, 16, u16x1, 7, 4, 9, [32]);
+c10_radix!(c10_radix_be_u16x1_r10, BUintD16<1>, 16, u16x1, from_radix_be, true, 8, 5, 10, [10]);
+c10_radix!(c10_radix_le_u16x1_r16, BUintD16<1>, 16, u16x1, from_radix_le, false, 7, 4, 9, [16]);
+c10_radix!(c10_radix_le_u16x1_r256, BUintD16<1>, 16, u16x1, from_radix_le, false, 5, 2, 7, [256]);
 
 // ---------------------------------------------------------------- out-of-range radix: must panic
 c10_bad_radix!(c10_panic_str_radix_u, 36, |buf, radix| BUintD8::<1>::from_str_radix(unsafe { core::str::from_utf8_unchecked(buf) }, radix));
